@@ -61,6 +61,7 @@ struct Thr {
   void* ret = nullptr;
   pthread_t pth{};
   const char* what = "";
+  int noPreempt = 0;   // > 0: scheduling points do not switch threads (harness hook bodies)
 };
 
 struct Rng {
@@ -291,6 +292,7 @@ Thr* pick(Thr* me, bool yielding) {
 void schedPoint(bool yielding = false) {
   if (!managed()) return;
   Thr* me = self;
+  if (me->noPreempt > 0) return;
   ++G.info.steps;
   G.vtime += 50;
   Thr* next = pick(me, yielding);
@@ -406,6 +408,9 @@ void namePlainRegion(const void* addr, size_t bytes, size_t elemSize, const char
   if (a + bytes > G.plainHi) G.plainHi = a + bytes;
 }
 
+void noPreempt(bool on) { if (G.active && self) self->noPreempt += on ? 1 : -1; }
+long backstopsSoFar() { return G.info.backstopsFired; }
+long timeoutsSoFar() { return G.info.timeoutsFired; }
 static long g_ghost[32];
 void ghostAdd(int slot, long delta) { g_ghost[slot & 31] += delta; }
 long ghostGet(int slot) { return g_ghost[slot & 31]; }
